@@ -419,3 +419,228 @@ Proof.
   apply (try_matchers_classify (stream sc) (max_depth_all tables)); auto.
   unfold ginv, base, new_sniffer; proj. cbn [length]. rewrite Nat.sub_0_r. auto.
 Qed.
+
+(* ---------- the oracle applied to the implementation accepts the model *)
+Lemma decision_eqb_refl d : decision_eqb d d = true.
+Proof. destruct d; cbn; auto using Nat.eqb_refl. Qed.
+
+Theorem serve_model_passes : forall tables sc svc,
+  tables_wf tables = true ->
+  let '(d, rem0, rs) := mux_run true tables sc svc in
+  ok_serve tables sc svc d (dec_closed d) (dec_handed d) rem0 rs = true.
+Proof.
+  intros tables sc svc Hwf. unfold mux_run.
+  destruct (mux_serve true tables sc) as [d s] eqn:EM.
+  pose proof (mux_sound _ _ _ _ _ Hwf EM) as Hsound.
+  assert ((if good (max_depth_all tables) sc then decision_eqb d (classify tables (stream sc)) else true) = true) as Hcl.
+  { destruct (good _ sc) eqn:G; [|reflexivity].
+    pose proof (mux_classify true tables sc Hwf G) as Hc. rewrite EM in Hc. cbn in Hc. rewrite Hc.
+    apply decision_eqb_refl. }
+  unfold mux_serve in EM.
+  destruct (try_matchers_sound (stream sc) true tables O _ _ _ (base_new _ sc eq_refl) Hwf EM) as (Hd & Hs).
+  destruct d; try contradiction.
+  - destruct (service_reads true svc s) as [rs s'] eqn:ER.
+    unfold ok_serve. rewrite Hsound, Hcl. cbn [andb dec_closed dec_handed negb Nat.eqb].
+    destruct (service_reads_ok (stream sc) svc _ _ _ _ Hs ER) as (Hok & _).
+    unfold ok_service. cbn [length] in Hok. rewrite Hok, andb_true_r.
+    destruct Hs as (_ & Hst & _). cbn [app] in Hst. apply Nat.leb_le.
+    rewrite <- Hst, app_length. unfold remaining. lia.
+  - unfold ok_serve. rewrite Hsound, Hcl. reflexivity.
+Qed.
+
+(* ---------- no byte ever arrives: closed *)
+Definition no_empty_string (tables : list (list bytes)) : bool :=
+  forallb (fun t => negb (existsb (@is_nil Z) t)) tables.
+
+Theorem mux_silent_closed : forall fx tables sc,
+  tables_wf tables = true -> no_empty_string tables = true ->
+  stream sc = [] -> fst (mux_serve fx tables sc) = DNone.
+Proof.
+  intros fx tables sc Hwf Hne Hnil.
+  destruct (mux_serve fx tables sc) as [d s] eqn:EM.
+  pose proof (mux_sound _ _ _ _ _ Hwf EM) as Hsound. rewrite Hnil in Hsound.
+  destruct d; cbn in *; try discriminate; [|reflexivity].
+  destruct (nth_error tables i) as [t|] eqn:En; [|discriminate].
+  apply nth_error_In in En. unfold no_empty_string in Hne. rewrite forallb_forall in Hne.
+  rewrite (any_prefix_nil_false t (Hne t En)) in Hsound. discriminate.
+Qed.
+
+(* ---------- the production tables against the request-line grammar *)
+Lemma any_prefix_in t m rest : In m t -> any_prefix t (m ++ rest) = true.
+Proof.
+  intros H. unfold any_prefix. apply existsb_exists. exists m. split; [exact H|].
+  apply is_prefix_app. now exists rest.
+Qed.
+
+(* method SP anything: the ten RTSP methods go to the RTSP service *)
+Theorem classify_rtsp_method : forall m rest,
+  In m rtsp_methods -> classify prod_tables (m ++ rest) = DSvc SVC_RTSP.
+Proof.
+  intros m rest H. unfold classify, prod_tables. cbn [classify_from].
+  rewrite any_prefix_in; [reflexivity|].
+  unfold rtsp_table. do 4 right. exact H.
+Qed.
+
+(* the eight HTTP methods other than OPTIONS go to the HTTP service *)
+Theorem classify_http_method : forall m rest,
+  In m http_methods_other -> classify prod_tables (m ++ SP :: rest) = DSvc SVC_HTTP.
+Proof.
+  intros m rest H. unfold classify, prod_tables. cbn [classify_from].
+  assert (any_prefix rtsp_table (m ++ SP :: rest) = false) as ->.
+  { unfold http_methods_other in H. cbn [In] in H.
+    repeat (destruct H as [<-|H]; [vm_compute; reflexivity|]). contradiction. }
+  rewrite any_prefix_in; [reflexivity|].
+  unfold http_table. right. exact H.
+Qed.
+
+(* a byte that does not occur in [p] ends the comparison *)
+Lemma is_prefix_stop p v c t :
+  existsb (Z.eqb c) p = false -> is_prefix p (v ++ c :: t) = is_prefix p v.
+Proof.
+  revert v; induction p as [|x p IH]; intros v H; [reflexivity|].
+  cbn [existsb] in H. apply orb_false_iff in H as [Hx Hp].
+  destruct v as [|y v]; cbn [app is_prefix].
+  - rewrite Z.eqb_sym, Hx. reflexivity.
+  - rewrite IH by exact Hp. reflexivity.
+Qed.
+
+Lemma is_prefix_sep a b tgt w :
+  existsb (Z.eqb SP) a = false -> existsb (Z.eqb SP) tgt = false ->
+  is_prefix (a ++ SP :: b) (tgt ++ SP :: w) = bytes_eqb a tgt && is_prefix b w.
+Proof.
+  revert tgt; induction a as [|x a IH]; intros tgt Ha Ht.
+  - destruct tgt as [|y tgt]; cbn [app is_prefix bytes_eqb].
+    + rewrite Z.eqb_refl. reflexivity.
+    + cbn [existsb] in Ht. apply orb_false_iff in Ht as [Hy _]. rewrite Hy. reflexivity.
+  - cbn [existsb] in Ha. apply orb_false_iff in Ha as [Hx Ha].
+    destruct tgt as [|y tgt]; cbn [app is_prefix bytes_eqb].
+    + rewrite Z.eqb_sym, Hx. reflexivity.
+    + cbn [existsb] in Ht. apply orb_false_iff in Ht as [_ Ht].
+      rewrite IH by assumption. now rewrite andb_assoc.
+Qed.
+
+(* OPTIONS SP target SP version CRLF …: RTSP exactly when the target is "*" with
+   an RTSP version or an rtsp:// URL; HTTP otherwise *)
+Theorem classify_options : forall target version rest,
+  no_sp target = true ->
+  classify prod_tables (M_OPTIONS ++ SP :: target ++ SP :: version ++ CR :: LF :: rest) =
+  if options_is_rtsp target version then DSvc SVC_RTSP else DSvc SVC_HTTP.
+Proof.
+  intros target version rest Hsp. unfold no_sp in Hsp. apply negb_true_iff in Hsp.
+  unfold classify, prod_tables. cbn [classify_from].
+  set (line := target ++ SP :: version ++ CR :: LF :: rest).
+  assert (any_prefix http_table (M_OPTIONS ++ SP :: line) = true) as Hh.
+  { apply any_prefix_in. left. reflexivity. }
+  rewrite Hh.
+  assert (any_prefix rtsp_table (M_OPTIONS ++ SP :: line) = options_is_rtsp target version) as ->.
+  2:{ destruct (options_is_rtsp target version); reflexivity. }
+  unfold any_prefix, rtsp_table. cbn [existsb].
+  (* strip "OPTIONS " from the four OPTIONS entries *)
+  assert (forall x, is_prefix (M_OPTIONS ++ [SP] ++ x) (M_OPTIONS ++ SP :: line) = is_prefix x line) as Hstrip.
+  { intros x. change (M_OPTIONS ++ [SP] ++ x) with ((M_OPTIONS ++ [SP]) ++ x).
+    change (M_OPTIONS ++ SP :: line) with ((M_OPTIONS ++ [SP]) ++ line). apply is_prefix_cancel. }
+  change (M_OPTIONS ++ [SP; STAR; SP] ++ RTSP_UP) with (M_OPTIONS ++ [SP] ++ ([STAR] ++ SP :: RTSP_UP)).
+  change (M_OPTIONS ++ [SP; STAR; SP] ++ RTSP_LO) with (M_OPTIONS ++ [SP] ++ ([STAR] ++ SP :: RTSP_LO)).
+  rewrite !Hstrip. unfold line.
+  rewrite !(is_prefix_sep [STAR]) by (reflexivity || exact Hsp).
+  rewrite !(is_prefix_stop _ target SP) by reflexivity.
+  rewrite !(is_prefix_stop _ version CR) by reflexivity.
+  (* none of the ten methods starts with 'O' *)
+  assert (forall m, In m rtsp_methods -> is_prefix m (M_OPTIONS ++ SP :: target ++ SP :: version ++ CR :: LF :: rest) = false) as Hm.
+  { intros m H. unfold rtsp_methods in H. cbn [In] in H.
+    repeat (destruct H as [<-|H]; [vm_compute; reflexivity|]). contradiction. }
+  rewrite !Hm by (unfold rtsp_methods; cbn [In]; tauto).
+  unfold options_is_rtsp. rewrite !orb_false_r.
+  destruct (bytes_eqb [STAR] target); cbn [andb orb];
+    destruct (is_prefix RTSP_UP version), (is_prefix RTSP_LO version),
+             (is_prefix (RTSP_LO ++ COLON_SS) target), (is_prefix (RTSP_UP ++ COLON_SS) target); reflexivity.
+Qed.
+
+(* no method name at the start: neither service *)
+Theorem classify_neither : forall st,
+  (forall m, In m (M_OPTIONS :: rtsp_methods ++ http_methods_other) -> is_prefix m st = false) ->
+  classify prod_tables st = DNone.
+Proof.
+  intros st H. unfold classify, prod_tables. cbn [classify_from].
+  assert (forall m x, In m (M_OPTIONS :: rtsp_methods ++ http_methods_other) -> is_prefix (m ++ x) st = false) as Hx.
+  { intros m x Hin. destruct (is_prefix (m ++ x) st) eqn:E; [|reflexivity].
+    apply is_prefix_app_l in E. rewrite H in E by exact Hin. discriminate. }
+  assert (any_prefix rtsp_table st = false) as ->.
+  { unfold any_prefix, rtsp_table. cbn [existsb].
+    rewrite !(Hx M_OPTIONS) by (left; reflexivity).
+    rewrite !H by (cbn; tauto). reflexivity. }
+  assert (any_prefix http_table st = false) as ->.
+  { unfold any_prefix, http_table. cbn [existsb]. rewrite !H by (cbn; tauto). reflexivity. }
+  reflexivity.
+Qed.
+
+(* at most one service, by construction: the decision is a function and the
+   first matching table in registration order wins; stated for two tables that
+   both match *)
+Theorem classify_first_registered_wins : forall t1 t2 st,
+  any_prefix t1 st = true -> classify [t1; t2] st = DSvc 0.
+Proof. intros t1 t2 st H. unfold classify. cbn [classify_from]. now rewrite H. Qed.
+
+(* ---------- loopback stream *)
+Lemma prod_tables_wf : tables_wf prod_tables = true.
+Proof. reflexivity. Qed.
+
+Lemma prod_depth : max_depth_all prod_tables = 16%nat.
+Proof. reflexivity. Qed.
+
+Lemma loop_script_good head silent : good (max_depth_all prod_tables) (loop_script head silent) = true.
+Proof.
+  unfold loop_script. cbn [good it_data it_err].
+  destruct (Nat.leb _ (length head)); [reflexivity|].
+  destruct silent; [|reflexivity]. cbn [stream flat_map it_data app is_nil]. apply orb_true_r.
+Qed.
+
+Lemma loop_script_stream head silent : stream (loop_script head silent) = head.
+Proof. unfold loop_script. destruct silent; cbn; now rewrite app_nil_r. Qed.
+
+Theorem loop_model_passes : forall head fill silent,
+  let '(d, handed, nrecv, eq) := loop_run head fill silent in
+  ok_loop head fill silent d handed nrecv eq = true.
+Proof.
+  intros head fill silent. unfold loop_run.
+  pose proof (mux_classify true prod_tables (loop_script head silent) prod_tables_wf (loop_script_good head silent)) as Hc.
+  rewrite loop_script_stream in Hc.
+  destruct (mux_serve true prod_tables (loop_script head silent)) as [d s] eqn:EM.
+  pose proof (mux_sound _ _ _ _ _ prod_tables_wf EM) as Hs.
+  cbn [fst] in *. unfold ok_loop. destruct d; cbn in Hs; try discriminate;
+    rewrite <- Hc; cbn; rewrite ?Nat.eqb_refl; reflexivity.
+Qed.
+
+(* with 16 bytes in the head, whatever follows (the filler) cannot change the decision *)
+Theorem classify_head_decides : forall head tail,
+  (15 <= length head)%nat -> classify prod_tables (head ++ tail) = classify prod_tables head.
+Proof.
+  intros head tail H. unfold classify, prod_tables. cbn [classify_from].
+  assert (forall t, (max_len t <= 15)%nat -> any_prefix t (head ++ tail) = any_prefix t head) as Hp.
+  { intros t Ht. rewrite <- (any_prefix_firstn t (head ++ tail) 15 Ht), <- (any_prefix_firstn t head 15 Ht).
+    rewrite firstn_app_long by lia. reflexivity. }
+  rewrite !Hp by (vm_compute; lia). reflexivity.
+Qed.
+
+(* ---------- the property's routing clause, end to end: from the raw
+   connection's read script to the service, for the production registration *)
+Theorem classify_spec : forall sc,
+  good 16 sc = true ->
+  let d := fst (mux_serve true prod_tables sc) in
+  d = classify prod_tables (stream sc) /\
+  (forall m rest, In m rtsp_methods -> stream sc = m ++ rest -> d = DSvc SVC_RTSP) /\
+  (forall m rest, In m http_methods_other -> stream sc = m ++ SP :: rest -> d = DSvc SVC_HTTP) /\
+  (forall target version rest, no_sp target = true ->
+     stream sc = M_OPTIONS ++ SP :: target ++ SP :: version ++ CR :: LF :: rest ->
+     d = if options_is_rtsp target version then DSvc SVC_RTSP else DSvc SVC_HTTP) /\
+  ((forall m, In m (M_OPTIONS :: rtsp_methods ++ http_methods_other) -> is_prefix m (stream sc) = false) ->
+     d = DNone).
+Proof.
+  intros sc Hg. cbv zeta.
+  pose proof (mux_classify true prod_tables sc prod_tables_wf Hg) as Hc.
+  split; [exact Hc|]. rewrite Hc. split_all.
+  - intros m rest Hin ->. now apply classify_rtsp_method.
+  - intros m rest Hin ->. now apply classify_http_method.
+  - intros target version rest Hsp ->. now apply classify_options.
+  - intros H. now apply classify_neither.
+Qed.
